@@ -84,6 +84,13 @@ PROPS = {
         units=[
         unit("c08", "proxy", PROXY_COMMON + ["proxy/c08_test.go"], "^TestVerifC08"),
     ], layers={"quick": ["c08-headers", "c08-websocket"], "thorough": ["c08-headers", "c08-websocket"]}),
+    "C13": dict(level="model_checking", engine="vsched",
+        technique="bounded-exhaustive template x request product against an independent expansion + stateless model checking of simultaneous requests through ServeHTTP",
+        level_text="(inputs) 13 documented template forms x 9 paths x 3 queries x 2 hosts x strip x prepend x codes through the real HTTPProxy: status, Location and no upstream contact; invalid codes; the self-redirect skip. (schedules) every interleaving up to the reported preemption bound of 2-3 simultaneous requests through ServeHTTP over one shared redirect route; each gets its own Location. The route-package E1 scenarios of C06 (redirect-2req/3req) exercise the same seam at the Lookup level.",
+        level_note="For templates without $path and without an own query the statement and fabio's own tests disagree on carrying the request query; both are accepted. Interleavings at sync-op and statement granularity of the rewritten route files.",
+        units=[
+        unit("c13", "proxy", PROXY_COMMON + ["proxy/c13_test.go"], "^TestVerifC13", engines=SCHED, rewrite=ROUTE_RW, race=True, sched_env={"GOMAXPROCS": "2"}),
+    ], layers={"quick": ["c13-inputs", "c13-sched"], "thorough": ["c13-inputs", "c13-sched"]}),
 }
 
 def layer_unit(pid, layer):
